@@ -221,6 +221,16 @@ theorem fdGet_close_other (t : FdTable) (fd x : Nat) (hx : x ≠ fd) :
     fdGet x (applyFdAct t (.close fd)) = fdGet x t := by
   simp only [applyFdAct]; exact fdGet_fdRemove_ne x fd t hx
 
+theorem fdGet_dup2IfInheritable_other (t : FdTable) (s d x : Nat) (hx : x ≠ d) :
+    fdGet x (applyFdAct t (.dup2IfInheritable s d)) = fdGet x t := by
+  simp only [applyFdAct]
+  cases fdGet s t with
+  | none => rfl
+  | some e =>
+    by_cases h : (e.cloexec || decide (s = d)) = true
+    · simp [h]
+    · simp only [h]; exact fdGet_fdSet_ne x d _ t hx
+
 theorem fdGet_clearCloexec (t : FdTable) (fd : Nat) (e : FdEntry) (h : fdGet fd t = some e) :
     fdGet fd (applyFdAct t (.clearCloexec fd)) = some { e with cloexec := false } := by
   simp only [applyFdAct, h, fdGet_fdSet_same]
